@@ -42,8 +42,8 @@ BUDGET_S = {"quick": 240.0, "thorough": 1500.0}
 
 BC1 = {"zero": "constant", "periodic": "wrap", "mirror": "mirror", "reflect": "reflect", "nearest": "nearest"}
 BC2 = {"zero": "constant", "periodic": "wrap", "neumann": "reflect", "mirror": "mirror", "nearest": "nearest"}
-PSF_KINDS = ("gauss", "moffat", "defocus", "custom_sym", "custom_asym")
-LEGACY_KINDS = ("gauss", "sinc", "prolate", "vonmises", "custom_sym", "custom_asym")
+PSF_KINDS = ("gauss", "moffat", "defocus", "custom_sym", "custom_asym", "custom_sym_neg", "custom_asym_neg")
+LEGACY_KINDS = ("gauss", "sinc", "prolate", "vonmises", "custom_sym", "custom_asym", "custom_sym_neg", "custom_asym_neg")
 FIELDS = ("none", "KL", "KL_modes", "KL_Full", "Step", "CustomKL", "geomobj")
 ABEL_FIELDS = ("none", "KL", "KL_modes", "Step", "CustomKL", "geomobj")
 OBS = (None, "every2", "every3from1", "upper", "three")
@@ -57,11 +57,11 @@ def _spell(r, s):
 def _noise(r):
     nt = r.choice(["gaussian", "gaussian", "scaledgaussian"])
     spelled = {"gaussian": r.choice(["gaussian", "Gaussian"]), "scaledgaussian": r.choice(["scaledgaussian", "scaledGaussian"])}[nt]
-    std = r.choice([0.01, 0.05, 0.3, round(r.uniform(0.002, 0.5), 4)])
+    std = r.choice([0.01, 0.05, 0.3, round(r.uniform(0.002, 0.5), 4), 1e-8, 7.5])
     return nt, spelled, std
 
 def _phantom1(r, dim):
-    name = r.choice(list(R.PHANTOMS_1D) + ["ndarray"])
+    name = r.choice(list(R.PHANTOMS_1D) + ["ndarray", "nd_neg", "nd_zero"])
     param = None
     if name in ("gauss", "sinc", "vonmises", "derivgauss") and r.random() < 0.5:
         param = round(r.uniform(1.0, 8.0), 3)
@@ -72,11 +72,11 @@ def _phantom1(r, dim):
 def _d1_case(r, kind, bc):
     dim = r.randint(8, 40)
     c = {"kind": "d1", "dim": dim, "psf": kind, "bc": bc, "bc_spelled": _spell(r, bc)}
-    if kind in ("custom_sym", "custom_asym"):
+    if kind.startswith("custom"):
         c["psf_len"] = r.choice([r.randrange(3, dim, 2), r.randrange(2, dim, 2), dim, dim, dim + r.randint(1, 3), 1 if kind == "custom_sym" else 2])
     else:
         c["psf_size"] = r.choice([None, None, r.randrange(3, dim, 2), r.randrange(2, dim, 2), dim])
-        c["psf_param"] = r.choice([None, round(r.uniform(1.0, 5.0) if kind == "defocus" else r.uniform(0.6, 6.0), 3)])
+        c["psf_param"] = r.choice([None, round(r.uniform(1.0, 5.0) if kind == "defocus" else r.uniform(0.6, 6.0), 3), 0.05, 40.0])
         c["psf_spelled"] = _spell(r, kind)
     c["phantom"], c["phantom_param"] = _phantom1(r, dim)
     c["phantom_spelled"] = _spell(r, c["phantom"])
@@ -88,8 +88,8 @@ def _d1_case(r, kind, bc):
 def _legacy_case(r, kind):
     dim = 2 * r.randint(4, 20)
     c = {"kind": "d1leg", "dim": dim, "psf": kind, "bc": "periodic"}
-    if kind not in ("custom_sym", "custom_asym"):
-        c["psf_param"] = r.choice([None, round(r.uniform(2.0, 25.0), 3)])
+    if not kind.startswith("custom"):
+        c["psf_param"] = r.choice([None, round(r.uniform(2.0, 25.0), 3), 0.05, 200.0])
         c["psf_spelled"] = r.choice([kind, kind.capitalize(), "vonMises" if kind == "vonmises" else kind])
     c["phantom"], c["phantom_param"] = _phantom1(r, dim)
     c["phantom_spelled"] = _spell(r, c["phantom"])
@@ -102,13 +102,13 @@ def _d2_case(r, kind, bc, tier):
     dim = r.randint(4, 10) if tier == "quick" else r.randint(4, 16)
     c = {"kind": "d2", "dim": dim, "psf": kind, "bc": bc, "bc_spelled": _spell(r, bc)}
     size = r.choice([r.randrange(3, 10, 2), r.randrange(2, 9, 2), r.randint(2, 7), dim + 1 if r.random() < 0.3 else 3])
-    if kind in ("custom_sym", "custom_asym"):
+    if kind.startswith("custom"):
         c["psf_len"] = size
     else:
         c["psf_size"] = r.choice([size, size, size, None])
-        c["psf_param"] = r.choice([None, round(r.uniform(1.0, 3.5) if kind == "defocus" else r.uniform(0.6, 4.0), 3)])
+        c["psf_param"] = r.choice([None, round(r.uniform(1.0, 3.5) if kind == "defocus" else r.uniform(0.6, 4.0), 3), 0.05, 30.0])
         c["psf_spelled"] = _spell(r, kind)
-    c["phantom"] = r.choice(["nd_same", "nd_same", "nd_vec", "nd_other", r.choice(PHANTOMS_2D)])
+    c["phantom"] = r.choice(["nd_same", "nd_vec", "nd_other", "nd_neg", "nd_zero", r.choice(PHANTOMS_2D)])
     c["noise"], c["noise_spelled"], c["noise_std"] = _noise(r)
     c["prior"] = r.choice([None, None, "gauss"])
     c["np_seed"] = r.randrange(2 ** 31)
@@ -150,17 +150,17 @@ def _pde_case(r, problem, field):
             c["field"], fp = "none", {}
     c["field_params"] = fp
     c["endpoint"] = r.choice([1.0, 1.0, round(r.uniform(0.5, 3.0), 3)])
-    c["snr"] = r.choice([10, 50, 100, 200, 1000, round(r.uniform(5, 500), 2)])
+    c["snr"] = r.choice([10, 50, 100, 200, 1000, round(r.uniform(5, 500), 2), 1e-3, 1e8])
     if problem == "heat":
         c["map"] = r.choice([None, None, "exp", "affine", "sqplus"])
         c["steps"] = r.randint(5, 160)
         c["obs"] = r.choice(OBS)
-        c["exact"] = r.choice([None, None, "ndarray"])
+        c["exact"] = r.choice([None, None, "ndarray", "zeros", "neg"])
     elif problem == "poisson":
         needs_pos = c["field"] in ("KL", "KL_modes", "KL_Full", "CustomKL", "geomobj")
         c["map"] = "exp" if needs_pos else r.choice([None, None, "exp", "affine", "sqplus"])
         c["obs"] = r.choice(OBS)
-        c["exact"] = r.choice([None, None, "ndarray"])
+        c["exact"] = r.choice([None, None, "ndarray", "ones", "neg"])
         c["source"] = r.choice(["default", "recorded_default", "poly", "sin"])
     else:
         c["map"] = r.choice([None, None, "times10", "sqplus", "exp"])
@@ -191,9 +191,10 @@ def cases(tier, seed):
     for _ in range(7 if q else 50):
         for field in ABEL_FIELDS:
             out.append(_pde_case(r, "abel", field))
-    for i in range(12 if q else 60):
-        out.append({"kind": "wang", "noise_std": r.choice([1, 0.5, 2.3, round(r.uniform(0.1, 5), 3)]) if i else None,
-                    "prior": r.choice([None, "gauss"]) if i else None, "data": r.choice([None, round(r.uniform(-5, 5), 3)]) if i else None,
+    for i in range(18 if q else 72):
+        out.append({"kind": "wang", "noise_std": r.choice([1, 0.5, 2.3, round(r.uniform(0.1, 5), 3), 1e-6]) if i else None,
+                    "prior": r.choice([None, "gauss"]) if i else None,
+                    "data": ([None, 0, 0.0, "zeros1", -2.5, round(r.uniform(-5, 5), 3)][i % 6] if i < 12 else r.choice([None, 0, 0.0, "zeros1", round(r.uniform(-5, 5), 3)])) if i else None,
                     "np_seed": r.randrange(2 ** 31)})
     for fam in ("d1_gaussian", "d1_scaled", "d1_legacy", "d2_gaussian", "d2_scaled", "heat", "poisson", "abel"):
         for rep in range(1 if q else 6):
@@ -236,7 +237,16 @@ def _relerr(a, b, floor=0.0):
     s = max(float(np.max(np.abs(b))) if b.size else 0.0, float(floor), 1e-300)
     return float(np.max(np.abs(a - b)) / s) if a.size else 0.0
 
-def _custom_psf(rs, n, symmetric, two_d=False):
+def _custom_psf(rs, n, symmetric, two_d=False, negative=False):
+    P = _custom_psf_pos(rs, n, symmetric, two_d)
+    if negative:        # ringing: the sign alternates with the distance from the centre sample n//2 (keeps the symmetry)
+        d = np.abs(np.arange(n) - n // 2)
+        sign = np.where(d % 2 == 1, -0.6, 1.0)
+        P = P * (np.outer(sign, sign) if two_d else sign)
+        P = P / np.sum(np.abs(P))
+    return P
+
+def _custom_psf_pos(rs, n, symmetric, two_d=False):
     if two_d:
         P = rs.rand(n, n) + 0.05
         if symmetric:
@@ -326,6 +336,10 @@ def _check_noise_and_consistency(ctx, P, rec):
         ctx.violation("data_shape_mismatch", cfg, detail=f"data {data.shape} exactData {y_exact.shape}")
     elif P.degenerate_noise:
         ctx.count("scaled_noise_degenerate")
+    elif sigma is not None and not np.all(np.asarray(sigma, float) > 0):
+        ctx.count("zero_noise_level_checked")      # e.g. SNR noise on an identically zero signal: data must be the exact data
+        if not np.array_equal(data, y_exact):
+            ctx.violation("noise_level_mismatch", cfg, detail="stated noise level is zero but data differ from exactData")
     elif sigma is not None:
         draws = [d for d in rec.normals() if int(np.prod(d[2])) == data.size] if rec is not None else []
         resid = data - y_exact
@@ -391,7 +405,7 @@ def _check_noise_and_consistency(ctx, P, rec):
     if bad:
         ctx.violation("geometry_inconsistent", cfg, detail="; ".join(bad))
     # --- posterior log-density == Gaussian log-likelihood of the stated noise + log-prior
-    if P.F_eff is None or sigma is None or P.degenerate_noise or data.shape != y_exact.shape:
+    if P.F_eff is None or sigma is None or P.degenerate_noise or data.shape != y_exact.shape or not np.all(np.asarray(sigma, float) > 0):
         return
     for x in P.points:
         Fx = _arr(P.F_eff(x))
@@ -447,12 +461,12 @@ def _run_d1(case, ctx, cuqi, rs):
     mode = BC1[case["bc"]]
     kwargs = {"dim": dim}
     alternates = []
-    if kind in ("custom_sym", "custom_asym"):
+    if kind.startswith("custom"):
         n = dim if legacy else case["psf_len"]
-        Pk = _custom_psf(rs, n, kind == "custom_sym")
+        Pk = _custom_psf(rs, n, kind.startswith("custom_sym"), negative=kind.endswith("_neg"))
         kwargs["PSF"] = Pk
         A_doc = R.conv1d_matrix(dim, Pk, mode)
-        if legacy:
+        if legacy and kind.startswith("custom_asym"):
             alternates.append(("legacy_custom_psf_correlation", R.corr1d_matrix(dim, Pk, mode)))
     elif legacy:
         kwargs["PSF"] = case["psf_spelled"]
@@ -475,8 +489,8 @@ def _run_d1(case, ctx, cuqi, rs):
     else:
         kwargs["BC"] = case["bc_spelled"]
     # phantom
-    if case["phantom"] == "ndarray":
-        x_ref = rs.randn(dim) + 0.3
+    if case["phantom"] in ("ndarray", "nd_neg", "nd_zero"):
+        x_ref = {"ndarray": rs.randn(dim) + 0.3, "nd_neg": -np.abs(rs.randn(dim)) - 0.1, "nd_zero": np.zeros(dim)}[case["phantom"]]
         kwargs["phantom"] = x_ref.copy()
     else:
         x_ref = R.phantom_1d(dim, case["phantom"], case["phantom_param"])
@@ -553,8 +567,8 @@ def _run_d2(case, ctx, cuqi, rs):
     mode = BC2[case["bc"]]
     kwargs = {"dim": dim, "BC": case["bc_spelled"]}
     alternates = []
-    if kind in ("custom_sym", "custom_asym"):
-        Pk = _custom_psf(rs, case["psf_len"], kind == "custom_sym", two_d=True)
+    if kind.startswith("custom"):
+        Pk = _custom_psf(rs, case["psf_len"], kind.startswith("custom_sym"), two_d=True, negative=kind.endswith("_neg"))
         kwargs["PSF"] = Pk
         P_doc = Pk
     else:
@@ -572,6 +586,8 @@ def _run_d2(case, ctx, cuqi, rs):
         X = rs.rand(dim, dim) + 0.1; kwargs["phantom"] = X.copy(); x_ref = X.flatten()
     elif ph == "nd_vec":
         X = rs.rand(dim, dim) + 0.1; kwargs["phantom"] = X.flatten(); x_ref = X.flatten()
+    elif ph in ("nd_neg", "nd_zero"):
+        X = -np.abs(rs.randn(dim, dim)) - 0.1 if ph == "nd_neg" else np.zeros((dim, dim)); kwargs["phantom"] = X.copy(); x_ref = X.flatten()
     elif ph == "nd_other":
         kwargs["phantom"] = rs.rand(dim + 3, dim + 3) + 0.1
     else:
@@ -745,8 +761,9 @@ def _run_pde(case, ctx, cuqi, rs):
         kwargs["observation_grid_map"] = _obs_lambda(obs)
     oidx = np.array(_obs_indices(obs, n_sol))
     exact_given = None
-    if case.get("exact") == "ndarray":
-        exact_given = np.exp(0.3 * rs.randn(n_dom)) if prob == "poisson" else rs.randn(n_dom)
+    if case.get("exact") is not None:
+        exact_given = {"ndarray": np.exp(0.3 * rs.randn(n_dom)) if prob == "poisson" else rs.randn(n_dom), "zeros": np.zeros(n_dom),
+                       "ones": np.ones(n_dom), "neg": -np.exp(0.3 * rs.randn(n_dom))}[case["exact"]]
         kwargs["exactSolution"] = exact_given.copy()
     cls = {"heat": cuqi.testproblem.Heat1D, "poisson": cuqi.testproblem.Poisson1D, "abel": cuqi.testproblem.Abel1D}[prob]
     np.random.seed(case["np_seed"])
@@ -841,8 +858,9 @@ def _run_wang(case, ctx, cuqi, rs):
     kwargs = {}
     std = 1 if case["noise_std"] is None else case["noise_std"]
     if case["noise_std"] is not None: kwargs["noise_std"] = case["noise_std"]
-    if case["data"] is not None: kwargs["data"] = case["data"]
-    data_ref = 1 if case["data"] is None else case["data"]
+    if case["data"] is not None: kwargs["data"] = np.zeros(1) if case["data"] == "zeros1" else case["data"]
+    data_ref = 1 if case["data"] is None else (0.0 if case["data"] == "zeros1" else case["data"])
+    cfg["data"] = "default" if case["data"] is None else ("falsy" if not data_ref else "given")
     if case["prior"] == "gauss":
         prior, logprior_ref = _make_prior(cuqi, "gauss", rs, 2)
         kwargs["prior"] = prior
